@@ -142,6 +142,9 @@ def _global_scan(ctx, res: RuleResult, fis) -> int:
         for n in own_walk(fn):
             if isinstance(n, ast.Assign) and len(n.targets) == 1 and isinstance(n.targets[0], ast.Name):
                 src = n.value
+                # x = TABLE.get(k, default) / TABLE.setdefault(..) / TABLE[k]: x may be an element of the module-level table
+                if isinstance(src, ast.Call) and isinstance(src.func, ast.Attribute) and src.func.attr in ("get", "setdefault", "pop", "values", "items"):
+                    src = src.func.value
                 rn = _root_name(src) if isinstance(src, (ast.Name, ast.Subscript, ast.Attribute)) else None
                 if rn and rn not in local:
                     r = repo.resolve(fi.module, rn)
@@ -308,10 +311,28 @@ def nondet_source(ctx, fi: FuncInfo, n: ast.AST) -> Optional[str]:
             q = r[1]
             if q in RNG_STATE_SETTERS:
                 return None
+            if q in ("random.Random", "numpy.random.default_rng", "numpy.random.RandomState"):
+                return None if RngModel(ctx).gen_kind(fi, n) == "seeded" else q
             if q.startswith(NONDET_PREFIX) or q in NONDET_NAMES:
                 return q
         if r and r[0] == "builtin" and r[1] in NONDET_BUILTINS:
             return r[1]
+        if isinstance(n.func, ast.Attribute) and n.func.attr in RNG_METHODS and isinstance(n.func.value, ast.Name):
+            k = RngModel(ctx).gen_kind(fi, n.func.value)
+            if k in ("global", "unseeded"):
+                return f"random.{n.func.attr}"
+            if k and k.startswith("param:"):
+                # a generator handed in by the callers: a source unless every call site passes a seeded generator
+                M = RngModel(ctx)
+                p = k[6:]
+                tp = params_of(fi.node)
+                for cs in ctx.cg.callers_of(fi.fq):
+                    idx = tp.index(p) - (1 if fi.cls is not None and isinstance(cs.node.func, ast.Attribute) else 0)
+                    arg = cs.node.args[idx] if 0 <= idx < len(cs.node.args) else kwarg(cs.node, p)
+                    ka = M.gen_kind(cs.caller, arg) if arg is not None else "global"
+                    if ka != "seeded" and not (ka or "").startswith("param:"):
+                        return f"random.{n.func.attr}"
+                return None
     if isinstance(n, (ast.Attribute, ast.Subscript)):
         base = n.value if isinstance(n, ast.Subscript) else n
         r = ctx.repo.resolve_dotted(fi.module, base) if isinstance(base, (ast.Name, ast.Attribute)) else None
@@ -417,7 +438,8 @@ class NondetFlow:
                                 rn = _root_name(a) if isinstance(a, (ast.Name, ast.Subscript, ast.Attribute)) else None
                                 if rn:
                                     taint(rn, o)
-                    elif cs.kind == "ext" and cs.target == "random.shuffle" and n.args:
+                    elif ((cs.kind == "ext" and cs.target == "random.shuffle") or (isinstance(n.func, ast.Attribute) and n.func.attr == "shuffle"
+                                                                                     and nondet_source(ctx, fi, n))) and n.args:
                         rn = _root_name(n.args[0])
                         if rn:
                             taint(rn, [("random.shuffle", fi, n)])
@@ -437,51 +459,156 @@ class NondetFlow:
         return {"ret": ret, "params": {p: tainted[p] for p in params if p in tainted}, "tainted": tainted}
 
 
+RNG_METHODS = {"shuffle", "random", "randint", "randrange", "choice", "choices", "sample", "uniform", "getrandbits", "gauss",
+               "normalvariate", "betavariate", "expovariate", "triangular", "randbytes"}
+
+
+class RngModel:
+    """Which calls draw from the interpreter-wide RNG, from a generator seeded by the caller's seed, or from a
+    generator handed in as a parameter.  Accepted idioms: `random.seed(<seed parameter>)` followed by module-level
+    draws, and `rng = random.Random(<seed parameter>)` with every draw going through `rng` (passed down explicitly)."""
+
+    def __init__(self, ctx):
+        self.ctx = ctx
+        self.summ: dict[str, dict] = {}
+        self.stack: set[str] = set()
+
+    def gen_kind(self, fi: FuncInfo, e: ast.expr, depth=0) -> Optional[str]:
+        """'seeded' | 'unseeded' | 'global' | 'param:<name>' | None (not an RNG object)"""
+        ctx = self.ctx
+        params = set(params_of(fi.node))
+        if depth > 4:
+            return None
+        if isinstance(e, ast.Call):
+            r = ctx.repo.resolve_dotted(fi.module, e.func)
+            if r and r[0] == "ext" and r[1] in ("random.Random", "random.SystemRandom", "numpy.random.default_rng", "numpy.random.RandomState"):
+                if r[1] == "random.SystemRandom" or not e.args:
+                    return "unseeded"
+                a = e.args[0]
+                if names_in(a) and names_in(a) <= params and not any(isinstance(x, ast.Call) for x in ast.walk(a)):
+                    return "seeded"
+                if isinstance(a, ast.Constant):
+                    return "seeded"
+                return "unseeded"
+            return None
+        if isinstance(e, (ast.Name, ast.Attribute)):
+            r = ctx.repo.resolve_dotted(fi.module, e) if not (isinstance(e, ast.Name) and (e.id in params or e.id in assigned_names(fi.node))) else None
+            if r and r[0] == "extmod" and r[1] == "random":
+                return "global"
+            if isinstance(e, ast.Name):
+                if e.id in params:
+                    return f"param:{e.id}"
+                d = single_def(fi.node, e.id)
+                if d is not None:
+                    return self.gen_kind(fi, d, depth + 1)
+        return None
+
+    def summary(self, fi: FuncInfo) -> dict:
+        """{'global': [(fi, node, text)], 'params': {param: [(fi, node)]}, 'unseeded': [...]}"""
+        if fi.fq in self.summ:
+            return self.summ[fi.fq]
+        if fi.fq in self.stack:
+            return {"global": [], "params": {}, "unseeded": []}
+        self.stack.add(fi.fq)
+        try:
+            out = {"global": [], "params": {}, "unseeded": []}
+            ctx = self.ctx
+            params = params_of(fi.node)
+            for n in own_walk(fi.node):
+                if not isinstance(n, ast.Call):
+                    continue
+                r = ctx.repo.resolve_dotted(fi.module, n.func) if isinstance(n.func, (ast.Name, ast.Attribute)) else None
+                if r and r[0] == "ext" and r[1].startswith(("random.", "numpy.random.")):
+                    q = r[1]
+                    if q in RNG_STATE_SETTERS or q.split(".")[-1] in ("Random", "SystemRandom", "default_rng", "RandomState", "getstate", "setstate"):
+                        continue
+                    out["global"].append((fi, n, q))
+                    continue
+                if isinstance(n.func, ast.Attribute) and n.func.attr in RNG_METHODS:
+                    k = self.gen_kind(fi, n.func.value)
+                    if k == "global":
+                        out["global"].append((fi, n, f"random.{n.func.attr}"))
+                    elif k == "unseeded":
+                        out["unseeded"].append((fi, n, f"unseeded generator .{n.func.attr}()"))
+                    elif k and k.startswith("param:"):
+                        out["params"].setdefault(k[6:], []).append((fi, n))
+                    continue
+                cs = ctx.cg.resolve_call(fi, n, ctx.cg.local_types(fi), set(params))
+                if cs.kind == "tucan":
+                    s = self.summary(cs.target)
+                    for (f2, n2, q) in s["global"]:
+                        out["global"].append((fi, n, f"{q} in {f2.qualname}"))
+                    for (f2, n2, q) in s["unseeded"]:
+                        out["unseeded"].append((fi, n, f"{q} in {f2.qualname}"))
+                    tp = params_of(cs.target.node)
+                    off = 1 if cs.target.cls is not None and isinstance(n.func, ast.Attribute) else 0
+                    for p, uses in s["params"].items():
+                        idx = tp.index(p) - off
+                        arg = n.args[idx] if 0 <= idx < len(n.args) else kwarg(n, p)
+                        if arg is None:
+                            # default value of the callee's parameter
+                            a = cs.target.node.args
+                            pos = a.posonlyargs + a.args
+                            d = None
+                            for pp, dd in zip(pos[len(pos) - len(a.defaults):], a.defaults):
+                                if pp.arg == p:
+                                    d = dd
+                            k = self.gen_kind(cs.target, d) if d is not None else None
+                            if d is not None and k is None:
+                                rr = ctx.repo.resolve_dotted(cs.target.module, d) if isinstance(d, (ast.Name, ast.Attribute)) else None
+                                k = "global" if rr and rr[0] == "extmod" and rr[1] == "random" else None
+                        else:
+                            k = self.gen_kind(fi, arg)
+                        if k == "global":
+                            out["global"].append((fi, n, f"random.* through parameter `{p}` of {cs.target.qualname} (argument omitted: default is the module-level generator)"
+                                                  if arg is None else f"random.* through parameter `{p}` of {cs.target.qualname}"))
+                        elif k == "unseeded":
+                            out["unseeded"].append((fi, n, f"unseeded generator passed as `{p}` of {cs.target.qualname}"))
+                        elif k and k.startswith("param:"):
+                            out["params"].setdefault(k[6:], []).append((fi, n))
+                        elif k is None:
+                            out["unseeded"].append((fi, n, f"unknown object passed as generator `{p}` of {cs.target.qualname}"))
+            self.summ[fi.fq] = out
+            return out
+        finally:
+            self.stack.discard(fi.fq)
+
+
 def _seed_ok(ctx, fi: FuncInfo) -> tuple[bool, str, Optional[ast.AST]]:
-    """random.seed(<expr over parameters only>) dominates every call in `fi` that can draw from the RNG"""
+    """every draw reachable from `fi` comes from a generator seeded with fi's seed parameter: module-level draws are
+    dominated by random.seed(<expr over parameters>), other draws go through random.Random(<parameter>)"""
     fn = fi.node
     cfg = cfg_of(fn)
     params = set(params_of(fn))
-    seeds = []
+    M = RngModel(ctx)
+    s = M.summary(fi)
+    if s["unseeded"]:
+        f2, n2, q = s["unseeded"][0]
+        return False, f"draws from an unseeded generator ({q})", n2
+    seeds, good = [], []
     for n in own_walk(fn):
         if isinstance(n, ast.Call):
             r = ctx.repo.resolve_dotted(fi.module, n.func)
             if r and r[0] == "ext" and r[1] == "random.seed":
                 seeds.append(n)
-    if not seeds:
-        return False, "no random.seed(...) call in the public function", None
-    good = []
-    for s in seeds:
-        if len(s.args) >= 1 and names_in(s.args[0]) and names_in(s.args[0]) <= params and not any(isinstance(x, ast.Call) for x in ast.walk(s.args[0])):
-            good.append(s)
-    if not good:
-        return False, "random.seed is not called with the seed parameter", seeds[0]
-    flow = NondetFlow(ctx)
-
-    def draws(n: ast.AST) -> bool:
-        if not isinstance(n, ast.Call):
-            return False
-        r = ctx.repo.resolve_dotted(fi.module, n.func)
-        if r and r[0] == "ext" and r[1].startswith("random.") and r[1] not in RNG_STATE_SETTERS:
-            return True
-        cs = ctx.cg.resolve_call(fi, n, ctx.cg.local_types(fi), params)
-        if cs.kind == "tucan":
-            clo = ctx.cg.closure([cs.target.fq])
-            for q in clo:
-                for c2 in ctx.cg.sites.get(q, []):
-                    if c2.kind == "ext" and c2.target.startswith("random.") and c2.target not in RNG_STATE_SETTERS:
-                        return True
-        return False
-    draw_nodes = cfg.nodes_where(draws)
-    seed_nodes = [cfg.stmt_node_containing(s) for s in good]
-    for d in draw_nodes:
-        if not any(sn is not None and sn != d and cfg.dominates(sn, d) for sn in seed_nodes):
-            return False, "an RNG draw is not dominated by random.seed(<seed parameter>)", cfg.ast.get(d)
-    # a later re-seed from something else than the parameter would break reproducibility
-    for s in seeds:
-        if s not in good:
-            return False, "random.seed called with something other than the seed parameter", s
-    return True, f"{len(draw_nodes)} drawing statement(s) dominated by {short(good[0])}", good[0]
+                if len(n.args) >= 1 and names_in(n.args[0]) and names_in(n.args[0]) <= params and not any(isinstance(x, ast.Call) for x in ast.walk(n.args[0])):
+                    good.append(n)
+    for sd in seeds:
+        if sd not in good:
+            return False, "random.seed is called with something other than the seed parameter", sd
+    seed_nodes = [cfg.stmt_node_containing(x) for x in good]
+    n_global = 0
+    for f2, node, q in s["global"]:
+        n_global += 1
+        d = cfg.stmt_node_containing(node)
+        if not any(sn is not None and d is not None and sn != d and cfg.dominates(sn, d) for sn in seed_nodes):
+            return False, f"a draw from the interpreter-wide generator ({q}) is not preceded by random.seed(<seed parameter>) on every path", node
+    total = n_global + sum(len(v) for v in s["params"].values())
+    seeded_gens = [n for n in own_walk(fn) if isinstance(n, ast.Call) and M.gen_kind(fi, n) == "seeded"]
+    if n_global == 0 and not seeded_gens and not s["params"]:
+        return False, "no random draw is reachable (the helper no longer permutes)", None
+    how = f"random.seed({short(good[0].args[0])})" if good else (f"{short(seeded_gens[0])}" if seeded_gens else "caller-provided generator")
+    return True, f"{n_global} module-level drawing call(s) dominated by {how}; other draws go through the seeded generator", good[0] if good else (seeded_gens[0] if seeded_gens else None)
 
 
 @rule("R-SEED")
@@ -756,7 +883,9 @@ def r_retry(ctx) -> RuleResult:
 
 def _trace_view(fi: FuncInfo, e: ast.expr, depth=0):
     """-> (kind, graph name, data?, sorted?, key?) for an expression that (through list/sorted/
-    local single-definition variables) is `<g>.nodes(...)` / `<g>.edges(...)` / `<g>.nodes` / `<g>.edges`"""
+    local single-definition variables, or a comprehension over such) is `<g>.nodes(...)` / `<g>.edges(...)` /
+    `<g>.nodes` / `<g>.edges`.  For a comprehension, `data?` says whether every element carries the attribute
+    dictionary of the item it was made from, `sorted?` whether the labels inserted come from a sorted()/range() sequence."""
     is_sorted = False
     sort_key = None
     while True:
@@ -780,6 +909,8 @@ def _trace_view(fi: FuncInfo, e: ast.expr, depth=0):
             k, g, data, s, key = r
             return (k, g, data, s or is_sorted, key if s else sort_key)
         break
+    if isinstance(e, (ast.GeneratorExp, ast.ListComp)) and len(e.generators) == 1 and depth < 5:
+        return _trace_comprehension(fi, e, is_sorted, sort_key, depth)
     view = None
     data = False
     if isinstance(e, ast.Call) and isinstance(e.func, ast.Attribute) and e.func.attr in ("nodes", "edges") and isinstance(e.func.value, ast.Name):
@@ -795,6 +926,8 @@ def _trace_view(fi: FuncInfo, e: ast.expr, depth=0):
         data = d is None or (isinstance(d, ast.Constant) and d.value is True)
     elif isinstance(e, ast.Attribute) and e.attr in ("nodes", "edges") and isinstance(e.value, ast.Name):
         view = (e.attr, e.value.id)
+    elif isinstance(e, ast.Name):
+        view = ("nodes", e.id) if False else None
     elif isinstance(e, ast.Call) and isinstance(e.func, ast.Attribute) and e.func.attr == "items" and isinstance(e.func.value, ast.Attribute) \
             and e.func.value.attr == "nodes":
         view = ("nodes", e.func.value.value.id if isinstance(e.func.value.value, ast.Name) else None)
@@ -802,6 +935,84 @@ def _trace_view(fi: FuncInfo, e: ast.expr, depth=0):
     if view is None:
         return None
     return (view[0], view[1], data, is_sorted, sort_key)
+
+
+def _label_sequence_sorted(fi: FuncInfo, e: ast.expr, depth=0) -> Optional[bool]:
+    """is the sequence `e` of labels in ascending order?  True: sorted(..) without key/reverse or range(..);
+    False: a view / list of the graph's nodes in insertion order or anything shuffled; None: unknown"""
+    if depth > 5:
+        return None
+    if isinstance(e, ast.Call) and isinstance(e.func, ast.Name):
+        if e.func.id == "sorted" and e.args and kwarg(e, "key") is None and (kwarg(e, "reverse") is None or (isinstance(kwarg(e, "reverse"), ast.Constant) and kwarg(e, "reverse").value is False)):
+            return True
+        if e.func.id == "range":
+            return True
+        if e.func.id in ("list", "tuple", "iter") and e.args:
+            return _label_sequence_sorted(fi, e.args[0], depth + 1)
+        if e.func.id in ("reversed", "set", "frozenset"):
+            return False
+    if isinstance(e, ast.Name):
+        defs = assigned_names(fi.node).get(e.id, [])
+        # a list that is shuffled in place is not sorted
+        for n in own_walk(fi.node):
+            if isinstance(n, ast.Call) and isinstance(n.func, ast.Attribute) and n.func.attr in ("shuffle", "reverse") and n.args and isinstance(n.args[0], ast.Name) and n.args[0].id == e.id:
+                return False
+            if isinstance(n, ast.Call) and isinstance(n.func, ast.Attribute) and n.func.attr == "sort" and isinstance(n.func.value, ast.Name) and n.func.value.id == e.id:
+                return True
+        d = single_def(fi.node, e.id)
+        if d is not None:
+            return _label_sequence_sorted(fi, d, depth + 1)
+        return None
+    if isinstance(e, ast.Attribute) and e.attr in ("nodes",):
+        return False
+    if isinstance(e, ast.Call) and isinstance(e.func, ast.Attribute) and e.func.attr in ("nodes", "keys"):
+        return False
+    return None
+
+
+def _trace_comprehension(fi: FuncInfo, e, is_sorted, sort_key, depth):
+    """((label, data) for ... in <source>) used to rebuild a graph"""
+    g = e.generators[0]
+    it = g.iter
+    elt = e.elt
+    # edges: (f(a), f(b), d) for a, b, d in <g>.edges(data=True)
+    src = _trace_view(fi, it, depth + 1)
+    tnames = [t.id for t in (g.target.elts if isinstance(g.target, ast.Tuple) else [g.target]) if isinstance(t, ast.Name)]
+    if src is not None and src[0] == "edges":
+        k, gname, data, s, key = src
+        carries = data and isinstance(elt, ast.Tuple) and len(elt.elts) == 3 and isinstance(elt.elts[2], ast.Name) and len(tnames) == 3 and elt.elts[2].id == tnames[2]
+        return ("edges", gname, bool(carries) and not g.ifs, is_sorted or s, sort_key)
+    if src is not None and src[0] == "nodes":
+        k, gname, data, s, key = src
+        carries = data and isinstance(elt, ast.Tuple) and len(elt.elts) == 2 and isinstance(elt.elts[1], ast.Name) and len(tnames) == 2 and elt.elts[1].id == tnames[1]
+        same_label = isinstance(elt, ast.Tuple) and isinstance(elt.elts[0], ast.Name) and tnames and elt.elts[0].id == tnames[0]
+        return ("nodes", gname, bool(carries) and not g.ifs, (is_sorted or (s and key is None and same_label)), sort_key if is_sorted else key)
+    # nodes: (new, <g>.nodes[old]) for old, new in zip(A, B)
+    if isinstance(it, ast.Call) and isinstance(it.func, ast.Name) and it.func.id == "zip" and len(it.args) == 2 and isinstance(elt, ast.Tuple) and len(elt.elts) == 2 \
+            and isinstance(g.target, ast.Tuple) and len(tnames) == 2:
+        lab, dat = elt.elts
+        gname = None
+        carries = False
+        if isinstance(dat, ast.Subscript) and isinstance(dat.value, ast.Attribute) and dat.value.attr == "nodes" and isinstance(dat.value.value, ast.Name) \
+                and isinstance(dat.slice, ast.Name) and dat.slice.id in tnames:
+            gname = dat.value.value.id
+            carries = not g.ifs
+        if isinstance(lab, ast.Name) and lab.id in tnames and gname is not None:
+            which = it.args[tnames.index(lab.id)]
+            srt = _label_sequence_sorted(fi, which)
+            if srt is None:
+                return None
+            return ("nodes", gname, carries, bool(srt) or is_sorted, sort_key)
+    # nodes: (n, <g>.nodes[n]) for n in <seq>
+    if isinstance(g.target, ast.Name) and isinstance(elt, ast.Tuple) and len(elt.elts) == 2 and isinstance(elt.elts[0], ast.Name) and elt.elts[0].id == g.target.id:
+        dat = elt.elts[1]
+        if isinstance(dat, ast.Subscript) and isinstance(dat.value, ast.Attribute) and dat.value.attr == "nodes" and isinstance(dat.value.value, ast.Name) \
+                and isinstance(dat.slice, ast.Name) and dat.slice.id == g.target.id:
+            srt = _label_sequence_sorted(fi, it)
+            if srt is None:
+                return None
+            return ("nodes", dat.value.value.id, not g.ifs, bool(srt) or is_sorted, sort_key)
+    return None
 
 
 def _rebuild_sites(ctx):
@@ -1062,9 +1273,30 @@ def _check_driver(ctx, fi: FuncInfo, step: FuncInfo, res: RuleResult):
                     elif isinstance(bound, ast.Constant):
                         verdict, why = "fail", f"constant cap of {bound.value} refinement rounds"
         if verdict is None:
+            # idiom (iii): the partition is discrete (every atom alone): count(var) == number of nodes, which is stable
+            for tn, ta in cfg.ast.items():
+                if cfg.kind[tn] != "test" or not hasattr(ta, "test"):
+                    continue
+                disc = _discrete_test(ctx, fi, ta.test, var)
+                if disc is None:
+                    continue
+                import networkx as nx
+                g = cfg.g.copy()
+                for _, tgt, d in list(g.out_edges(tn, data=True)):
+                    if d.get("label") in ("true", "both"):
+                        g.remove_edge(tn, tgt)
+                if on not in nx.descendants(g, cfg.ENTRY):
+                    if disc:
+                        verdict, why = "ok", f"guarded by {cfg.describe(tn)}: every atom is alone in its class"
+                    else:
+                        verdict, why = "fail", f"guarded by {cfg.describe(tn)}, which does not say that every atom is alone in its class (off by one against the class counter)"
+                    break
+        if verdict is None:
             sd = step_defs(var)
             if sd:
                 verdict, why = "fail", "a refinement is handed out with no stability test and no size-bounded iteration"
+            elif var in params_of(fn) or any(isinstance(d, ast.Assign) and isinstance(d.value, ast.Name) for d in defs.get(var, [])):
+                verdict, why = "fail", "a partition is handed out without comparing it with its refinement"
             else:
                 raise AnalysisError(f"R-FIXPOINT: cannot relate `{short(node)}` in {fi.qualname} to the refinement step")
         res.inst(fi.fq, short(node), verdict, detail=why)
@@ -1077,6 +1309,47 @@ def _check_driver(ctx, fi: FuncInfo, step: FuncInfo, res: RuleResult):
         res.inst(fi.fq, short(r), "ok" if ok else "fail", detail="continues from the refined partition")
         if not ok:
             res.fail(Finding("R-FIXPOINT", fi.module.rel, fi.qualname, norm(r), "refinement continues from something other than the refined partition", line=r.lineno))
+
+
+def _counter_offset(ctx, fi: FuncInfo, call: ast.Call) -> Optional[int]:
+    """what a class-counting call returns relative to the number of classes: max(ids) -> -1, len(set(ids)) -> 0"""
+    cs = ctx.cg.resolve_call(fi, call, ctx.cg.local_types(fi), set(params_of(fi.node)))
+    if cs.kind != "tucan":
+        return None
+    rets = [n.value for n in own_walk(cs.target.node) if isinstance(n, ast.Return) and n.value is not None]
+    if len(rets) != 1:
+        return None
+    r = rets[0]
+    if isinstance(r, ast.Call) and isinstance(r.func, ast.Name) and r.func.id == "max" and kwarg(r, "key") is None:
+        return -1
+    if isinstance(r, ast.Call) and isinstance(r.func, ast.Name) and r.func.id == "len" and r.args and isinstance(r.args[0], ast.Call) \
+            and isinstance(r.args[0].func, ast.Name) and r.args[0].func.id in ("set", "frozenset"):
+        return 0
+    if isinstance(r, ast.BinOp) and isinstance(r.op, ast.Add) and isinstance(r.right, ast.Constant) and isinstance(r.left, ast.Call) \
+            and isinstance(r.left.func, ast.Name) and r.left.func.id == "max":
+        return -1 + r.right.value
+    return None
+
+
+def _discrete_test(ctx, fi: FuncInfo, test: ast.expr, var: str) -> Optional[bool]:
+    """`count(var) == var.number_of_nodes() + k`: True if that means 'as many classes as atoms', False if it is such a
+    comparison but off, None if the test is something else"""
+    if not (isinstance(test, ast.Compare) and len(test.ops) == 1 and isinstance(test.ops[0], ast.Eq)):
+        return None
+    sides = [test.left, test.comparators[0]]
+    cnt = next((x for x in sides if isinstance(x, ast.Call) and len(x.args) == 1 and isinstance(x.args[0], ast.Name) and x.args[0].id == var
+                and _counter_offset(ctx, fi, x) is not None), None)
+    if cnt is None:
+        return None
+    other = sides[1] if sides[0] is cnt else sides[0]
+    k = 0
+    if isinstance(other, ast.BinOp) and isinstance(other.op, (ast.Add, ast.Sub)) and isinstance(other.right, ast.Constant) and isinstance(other.right.value, int):
+        k = other.right.value if isinstance(other.op, ast.Add) else -other.right.value
+        other = other.left
+    t = norm(other)
+    if t not in (f"{var}.number_of_nodes()", f"len({var})", f"len({var}.nodes)", f"{var}.order()"):
+        return None
+    return _counter_offset(ctx, fi, cnt) == k
 
 
 @rule("R-OWNFIRST")
